@@ -147,6 +147,7 @@ def run(chk):
     chk.sample({"case": cases[0], "model": mres[0]})
     chk.sample({"case": cases[len(cases) // 2], "model": mres[len(cases) // 2]})
     twins(chk, hscan, K)
+    atomq_part(chk, hscan, K)
 
 
 def twins(chk, hscan, K):
@@ -299,3 +300,104 @@ def fastmode_trees(chk, hscan, K):
     chk.add("evaluations", n)
     chk.add("traces_validated_against_impl", okn)
     chk.note(fastmode_condition_trees=n)
+
+
+def atomq_part(chk, hscan, K):
+    """atom quality tables: the same string compiled without a table and with tables that make every window of the string in turn the best
+    atom (all other literal windows get quality 1, windows not in the table have the maximum quality) must report the same matches"""
+    n = 25 if chk.tier == "quick" else 250
+    alen = int(K.get("YR_MAX_ATOM_LENGTH", 4))
+    cases, meta = [], {}
+    for i in range(n):
+        r = chk.rng.fork()
+        L = r.range(5, 10)
+        body = [r.choice(b"ABCDEFGHJKLMNPQRSTUVWXYZabcdefghjkmnpqrstuvwxyz0123456789\x00\xff\x20\x90") for _ in range(L)]
+        kind = r.choice(["text", "text-nocase", "hex", "hex-nibble-lo", "hex-nibble-hi", "hex-any", "regexp-dot"])
+        wpos = r.range(1, L - 2)
+        toks = ["%02X" % c for c in body]
+        vals = [[c] for c in body]                       # admissible bytes per position
+        if kind == "hex-nibble-lo":
+            toks[wpos] = "%X?" % (body[wpos] >> 4)
+            vals[wpos] = [(body[wpos] & 0xF0) | x for x in (0, 7, 15)]
+        elif kind == "hex-nibble-hi":
+            toks[wpos] = "?%X" % (body[wpos] & 15)
+            vals[wpos] = [(x << 4) | (body[wpos] & 15) for x in (0, 8, 15)]
+        elif kind in ("hex-any", "regexp-dot"):
+            toks[wpos] = "??"
+            vals[wpos] = [0x00, 0x41, 0xFE, 0xFF] if kind == "hex-any" else [0x00, 0x41, 0xFE, 0xFF]
+        if kind.startswith("text"):
+            txt = bytes(c if 32 < c < 127 and c not in b'"\\' else 0x61 for c in body)
+            body = list(txt)
+            vals = [[c] for c in body]
+            decl = '$a = "%s"%s' % (txt.decode(), " nocase" if kind == "text-nocase" else "")
+        elif kind == "regexp-dot":
+            decl = "$a = /%s/s" % "".join("." if k == wpos else "\\x%02x" % c for k, c in enumerate(body))
+        else:
+            decl = "$a = { %s }" % " ".join(toks)
+        cond = r.choice(["$a", "#a == %d", "$a or filesize < 0", "$a"])
+        # buffers: every admissible value of the wildcarded position, at the start, in the middle and at the end
+        occs = []
+        for v in vals[wpos] if len(vals[wpos]) > 1 else [body[wpos]]:
+            o = list(body)
+            o[wpos] = v
+            occs.append(bytes(o))
+        buf = b"".join(o + bytes(r.choice(b" .-") for _ in range(r.range(1, 3))) for o in occs) + occs[-1]
+        if "%d" in cond:
+            cond = cond % (len(occs) + 1)
+        src = "rule t { strings: %s condition: %s }" % (decl, cond)
+        lit_windows = []
+        for p_ in range(0, L - alen + 1):
+            if all(len(vals[k]) == 1 for k in range(p_, p_ + alen)):
+                lit_windows.append(bytes(body[p_:p_ + alen]))
+        tables = [None]
+        for fav in range(0, L - alen + 1):
+            ent = sorted(set(w for k, w in enumerate(lit_windows) if w != bytes(body[fav:fav + alen]) or not all(len(vals[j]) == 1 for j in range(fav, fav + alen))))
+            if kind == "text-nocase":
+                ent = sorted(set(ent) | set(w.lower() for w in ent) | set(w.upper() for w in ent))
+            tables.append(ent)
+        tables.append(sorted(set(lit_windows)))          # every literal window is bad: only windows with the wildcard are left
+        for ti, ent in enumerate(tables):
+            cmds = ["newcompiler"]
+            if ent is not None:
+                if not ent:
+                    continue
+                cmds.append("atomq %d %d %s" % (len(ent), 0, hx(b"".join(w + bytes([1]) for w in ent))))
+            cmds += ["add " + hx(src.encode()), "getrules", "scanner 0", "scan " + hx(buf), "sflags %d" % int(K.get("SCAN_FLAGS_FAST_MODE", 1)), "scan " + hx(buf)]
+            cases.append(("q%d_%d" % (i, ti), cmds))
+        meta[i] = (src, buf, len(tables), kind)
+    out, err = vlib.run_cases(hscan, cases, timeout=3000, jobs=16)
+    okn = 0
+    kinds = {}
+    for i in range(n):
+        src, buf, nt, kind = meta[i]
+        kinds[kind] = kinds.get(kind, 0) + 1
+        ref = [l for l in out.get("q%d_0" % i, []) if l.startswith("scan msgs=")]
+        if any(l.startswith("crash") for l in out.get("q%d_0" % i, [])) or len(ref) != 2:
+            adds = [l for l in out.get("q%d_0" % i, []) if l.startswith("add errors=")]
+            if not adds or adds[0] == "add errors=0":
+                chk.violation("atomq-run", "atom-table scenario did not run: %s" % out.get("q%d_0" % i, [])[-3:], {"rule": src}, found_input=False)
+            continue
+        bad = False
+        for ti in range(1, nt):
+            lines = out.get("q%d_%d" % (i, ti))
+            if lines is None:
+                continue
+            sc = [l for l in lines if l.startswith("scan msgs=")]
+            if any(l.startswith("crash") for l in lines):
+                chk.violation("atomq-crash", "compiling/scanning with an atom quality table crashes: %s" % src[:200],
+                              {"rule": src, "buffer_hex": hx(buf), "commands": dict(cases)["q%d_%d" % (i, ti)][:2], "output": lines[-3:]})
+                bad = True
+                break
+            if len(sc) != 2 or sc[0] != ref[0] or re.findall(r"([MN]):default:t", sc[1]) != re.findall(r"([MN]):default:t", ref[1]):
+                chk.violation("atom-quality-table", "`%s`: matches without an atom quality table %s ; with a table that penalises %s: %s"
+                              % (src[:200], ref[0][:200], "all literal windows" if ti == nt - 1 else "every literal window but #%d" % (ti - 1), (sc[:1] or lines[-2:])[0][:200]),
+                              {"rule": src, "buffer_hex": hx(buf), "table_command": dict(cases)["q%d_%d" % (i, ti)][1][:400], "without_table": ref, "with_table": sc,
+                               "how": "h_scan: newcompiler; atomq <entries> 0 <hex of entries: 4 atom bytes + quality byte>; add <rule>; getrules; scanner 0; scan <buffer>"})
+                bad = True
+                break
+        if not bad:
+            okn += 1
+    chk.add("evaluations", len(cases))
+    chk.add("traces_validated_against_impl", okn)
+    chk.note(atom_quality_table_strings=n, atom_quality_table_compilations=len(cases), atom_quality_kinds=kinds)
+
